@@ -202,7 +202,14 @@ type lfObl struct {
 }
 
 type lfEngine struct {
-	bitFacts    bool // record, per path, the source bits fixed by single-bit tests (lfState.bitFacts)
+	bitFacts bool // record, per path, the source bits fixed by single-bit tests (lfState.bitFacts)
+	// extraction mode (bits mode, string decoders): slices made by the function are tracked
+	// buffers "mk<n>" (stores into them are wire events of the element's width), a byte loaded
+	// from the input at a symbolic index is a source "ld<sym>" (its index is in elemLoads), a
+	// read of a constant package-level table is tbl:<name>(index bits), and []rune→string keeps
+	// the identity of the slice
+	extract     bool
+	nMade       int
 	c           *Ctx
 	symNames    []string
 	nextID      int
@@ -1521,6 +1528,11 @@ func (e *lfEngine) step(fr *lfFrame, st *lfState, in ssa.Instruction) {
 	case *ssa.MakeSlice:
 		n := e.asInt(st, e.val(fr, st, x.Len), x.Len.Type(), "len")
 		e.require(fr, st, in, "make: length ≥ 0: "+exprText(x.Len), geq(n, linConst(0)))
+		if e.extract {
+			e.nMade++
+			fr.env[x] = vSlice{Len: n, Org: &sliceOrg{ID: e.id(), Name: fmt.Sprintf("mk%d", e.nMade), Off: linConst(0)}}
+			return
+		}
 		fr.env[x] = vSlice{Len: n}
 	case *ssa.MakeMap, *ssa.MakeChan:
 		fr.env[in.(ssa.Value)] = vNilable{ID: e.id(), Nil: 2}
@@ -1590,7 +1602,11 @@ func (e *lfEngine) step(fr *lfFrame, st *lfState, in ssa.Instruction) {
 					if k, isK := p.Elem.Idx.isConst(); isK {
 						e.onStore(st, "wire", fmt.Sprintf("%s[%d]", p.Elem.Org.Name, k), e.renderVal(sv), x.Pos(), e.bitsOfVal(sv, 8))
 					} else {
-						e.onStore(st, "wire", p.Elem.Org.Name+"["+e.linString(p.Elem.Idx)+"]", e.renderVal(sv), x.Pos(), e.bitsOfVal(sv, 8))
+						w := 8
+						if e.extract && typeBits(x.Val.Type()) > 8 {
+							w = typeBits(x.Val.Type())
+						}
+						e.onStore(st, "wire", p.Elem.Org.Name+"["+e.linString(p.Elem.Idx)+"]", e.renderVal(sv), x.Pos(), e.bitsOfVal(sv, w))
 					}
 					if n := len(st.events); n > 0 && st.events[n-1].Kind == "wire" {
 						idx := p.Elem.Idx
@@ -1872,6 +1888,13 @@ func (e *lfEngine) doConvert(fr *lfFrame, st *lfState, x *ssa.Convert) {
 				fr.env[x] = s
 				return
 			}
+			if e.extract && s.Org != nil {
+				if fv, isS := e.fresh(st, to, x.Name()).(vSlice); isS {
+					fv.Org = s.Org
+					fr.env[x] = fv
+					return
+				}
+			}
 		}
 		fr.env[x] = e.fresh(st, to, x.Name())
 	default:
@@ -1959,6 +1982,11 @@ func (e *lfEngine) doUnOp(fr *lfFrame, st *lfState, x *ssa.UnOp) {
 							v = e.withBits(iv, bvSrc(fmt.Sprintf("d%d", k), 8))
 							st.heap[key] = v
 						}
+					} else if iv, ok := v.(vInt); ok && e.extract && len(iv.E.T) == 1 && iv.E.C == 0 {
+						for sy := range iv.E.T {
+							iv.B = bvSrc(fmt.Sprintf("ld%d", int(sy)), 8)
+						}
+						v = iv
 					}
 				} else if pfx, isT := e.tracked[p.Obj]; isT && p.Path != "" && !strings.Contains(p.Path, "[") {
 					name := pfx + strings.TrimPrefix(p.Path, ".")
@@ -2941,6 +2969,18 @@ func (e *lfEngine) tableLoad(fr *lfFrame, st *lfState, x *ssa.UnOp, cont func(*l
 	idx, isInt := e.val(fr, st, ia.Index).(vInt)
 	if !isInt {
 		return false
+	}
+	if e.extract && len(fields) == 0 && idx.B != nil {
+		if _, isK := idx.E.isConst(); !isK {
+			if w := typeBits(x.Type().Underlying()); w > 0 {
+				if res, ok := e.fresh(st, x.Type(), g.Name()+"[…]").(vInt); ok {
+					res.B = bvTagged("tbl:"+g.Name(), w, idx.B)
+					fr.env[x] = res
+					cont(st, fr)
+					return true
+				}
+			}
+		}
 	}
 	valueOf := func(k int) (lfVal, bool) {
 		gv := tbl.Elems[k]
